@@ -161,6 +161,7 @@ func scriptString(sc env.Script) string {
 }
 
 func c28Run(c *fx.Ctx) {
+	c28Reused(c)
 	docs := ioCorpus(0)
 	entries := readEntries()
 	maxDev2 := c.Pick(250, 20000) // cap on 2-deviation scripts per (entry, doc)
@@ -234,12 +235,93 @@ func c28Run(c *fx.Ctx) {
 	}
 }
 
+// c28Reused: the reader behaviour must not matter across documents either: one decoder/unmarshaler instance decodes
+// document 1 (valid, or rejected at its very last byte) through a scripted reader and then document 2 through another;
+// each result must equal decoding that document from memory on a fresh instance.
+func c28Reused(c *fx.Ctx) {
+	firsts := [][]byte{{0x81, 0x00, 0x9a, 0x01, 0x73}, {0x81, 0x00, 0x05, 0x06}, {0x81, 0x00, 0x9a, 0x01, 0x02, 0x9b}, {0x81, 0x00, 0x90, 0x05, 'a', 'b'}, []byte("c0\n[1 2] 3"), []byte("c0\n[1 2]"), []byte("c0\n\"ab")}
+	seconds := [][]byte{{0x81, 0x00, 0x9a, 0x01, 0x02, 0x03, 0x9b}, {0x81, 0x00, 0x83, 'a', 'b', 'c'}, []byte("c0\n[1 2 3]"), []byte("c0\n\"abc\"")}
+	scripts := []env.Script{{}, {Default: env.Answer{Kind: env.DataEOF}}, {Default: env.Answer{Kind: env.Short, K: 1}}, {At: map[int]env.Answer{0: {Kind: env.Zero}}, Default: env.Answer{Kind: env.DataEOF}}, {At: map[int]env.Answer{1: {Kind: env.Zero}, 2: {Kind: env.Short, K: 2}}}}
+	type inst struct {
+		name string
+		mk   func() func(r io.Reader) (string, error)
+		mem  func(doc []byte) (string, error)
+		cbe  bool
+	}
+	insts := []inst{
+		{"cbe.Decoder(reused)", func() func(r io.Reader) (string, error) {
+			d := cbe.NewDecoder(configuration.New())
+			return func(r io.Reader) (string, error) {
+				rec := &ev.Recorder{}
+				err := d.Decode(r, rules.NewRules(rec, configuration.New()))
+				return ev.Join(rec.Events), err
+			}
+		}, readEntries()[0].memory, true},
+		{"cbe.Unmarshaler(reused)", func() func(r io.Reader) (string, error) {
+			u := cbe.NewUnmarshaler(configuration.New())
+			return func(r io.Reader) (string, error) { v, err := u.Unmarshal(r, nil); return valueKey(v), err }
+		}, readEntries()[3].memory, true},
+		{"cte.Decoder(reused)", func() func(r io.Reader) (string, error) {
+			d := cte.NewDecoder(configuration.New())
+			return func(r io.Reader) (string, error) {
+				rec := &ev.Recorder{}
+				err := d.Decode(r, rules.NewRules(rec, configuration.New()))
+				return ev.Join(rec.Events), err
+			}
+		}, readEntries()[1].memory, false},
+		{"cte.Unmarshaler(reused)", func() func(r io.Reader) (string, error) {
+			u := cte.NewUnmarshaler(configuration.New())
+			return func(r io.Reader) (string, error) { v, err := u.Unmarshal(r, nil); return valueKey(v), err }
+		}, readEntries()[4].memory, false},
+		{"universal.Decoder(reused)", func() func(r io.Reader) (string, error) {
+			d := ce.NewCEDecoder(configuration.New())
+			return func(r io.Reader) (string, error) {
+				rec := &ev.Recorder{}
+				err := d.Decode(r, rules.NewRules(rec, configuration.New()))
+				return ev.Join(rec.Events), err
+			}
+		}, readEntries()[2].memory, true},
+	}
+	for _, in := range insts {
+		if !c.Take() {
+			continue
+		}
+		for _, d1 := range firsts {
+			for _, d2 := range seconds {
+				universal := strings.HasPrefix(in.name, "universal")
+				if !universal && ((d1[0] == 0x81) != in.cbe || (d2[0] == 0x81) != in.cbe) {
+					continue
+				}
+				for _, s1 := range scripts {
+					for _, s2 := range scripts {
+						run := in.mk()
+						o1, e1 := guard(func() (string, error) { return run(&env.Reader{Data: d1, Script: s1}) })
+						o2, e2 := guard(func() (string, error) { return run(&env.Reader{Data: d2, Script: s2}) })
+						m1, me1 := guard(func() (string, error) { return in.mem(d1) })
+						m2, me2 := guard(func() (string, error) { return in.mem(d2) })
+						c.Add("evaluations", 1)
+						c.Add("executions", 1)
+						c.Add("reused_instance_sequences", 1)
+						w := c28Witness{Entry: in.name, Doc: append(append(append([]byte{}, d1...), '|'), d2...), Script: s2}
+						if errPresence(e1) != errPresence(me1) || (e1 == nil && o1 != m1) {
+							c.Violation(in.name+":first-document-differs", fmt.Sprintf("%s: document 1 (% x) with reader script %s: err=%v result %s; from memory err=%v result %s", in.name, d1, scriptString(s1), e1, clipS(o1), me1, clipS(m1)), w)
+						} else if errPresence(e2) != errPresence(me2) || (e2 == nil && o2 != m2) {
+							c.Violation(fmt.Sprintf("%s:second-document-differs(%s-vs-memory-%s)", in.name, errPresence(e2), errPresence(me2)),
+								fmt.Sprintf("%s: after document 1 (% x, script %s, err=%v), document 2 (% x, script %s) gives err=%v result %s; from memory on a fresh instance err=%v result %s", in.name, d1, scriptString(s1), e1, d2, scriptString(s2), e2, clipS(o2), me2, clipS(m2)), w)
+						}
+					}
+				}
+			}
+		}
+	}
+}
+
 func init() {
 	register(&fx.Check{
 		ID:    "C28",
 		Level: "fault_enumeration",
 		Rule: "environment-answer exploration: for each of ~150 documents (every token kind) and their truncated/mutated variants, through 6 reader entry points (cbe/cte/universal Decode, UnmarshalCBE/CTE/CE), the io.Reader answers each Read call with full / short(1) / short(2) / (0,nil) / data+EOF; " +
-			"all scripts with 0 and 1 deviations from the all-full script (every call index × every kind), all pairs of deviations up to a stated cap, plus 3 saturated scripts (always 1 byte, alternate zero/1 byte, data+EOF); " +
+			"plus all two-document sequences (7 first documents incl. ones rejected at their last byte × 4 second documents × 5×5 reader scripts) on one reused decoder/unmarshaler instance of each kind; all scripts with 0 and 1 deviations from the all-full script (every call index × every kind), all pairs of deviations up to a stated cap, plus 3 saturated scripts (always 1 byte, alternate zero/1 byte, data+EOF); " +
 			"oracle: recorded events / built value / error presence equal to decoding the same bytes from memory; distinct_nontrivial = distinct (entry point, document) pairs",
 		Assumptions: []string{"a (0,nil) answer is given at most once per call index (a reader returning (0,nil) forever may legitimately block the caller)", "for invalid documents only error presence is compared"},
 		TrustedBase: []string{"env.Reader (scripted io.Reader)", "reflect-based value rendering"},
